@@ -288,6 +288,8 @@ func runStmt(src string) (o Obs) {
 //	avv  $l = L; $r = R; $d = $l OP $r; c03_emit($d);     (VarFastAssign)
 //	avl  $l = L; $d = $l OP R; c03_emit($d);
 //	for  $l = L; $h = false; for (; $l OP R; ) { $h = true; break; } c03_emit($h);   (BoolTest)
+//	not / notvl / ifnot / notq / notand   !($l OP $r), !($l OP R), if (!(..)), !(..) ? :, !(..) && true
+//	     (the truth of the operation is reported, like "for")
 func scriptOps(l, r *V, shape string) []Obs {
 	ls, ok1 := lit(l)
 	rs, ok2 := lit(r)
@@ -317,10 +319,28 @@ func scriptOps(l, r *V, shape string) []Obs {
 			src = "$l = " + ls + ";\n$d = $l" + o + rs + ";\nc03_emit($d);\n"
 		case "for":
 			src = "$l = " + ls + "; $h = false;\nfor (; $l" + o + rs + "; ) { $h = true; break; }\nc03_emit($h);\n"
+		// `!` written directly in front of the parenthesised operation (the unary constructor sees the
+		// binary node): the TRUTH of the operation is reported (the observed negation, inverted)
+		case "not":
+			src = "$l = " + ls + "; $r = " + rs + ";\nc03_emit(!($l" + o + "$r));\n"
+		case "notvl":
+			src = "$l = " + ls + ";\nc03_emit(!($l" + o + rs + "));\n"
+		case "ifnot":
+			src = "$l = " + ls + "; $r = " + rs + ";\nif (!($l" + o + "$r)) { c03_emit(false); } else { c03_emit(true); }\n"
+		case "notq":
+			src = "$l = " + ls + "; $r = " + rs + ";\nc03_emit(!($l" + o + "$r) ? false : true);\n"
+		case "notand":
+			src = "$l = " + ls + "; $r = " + rs + ";\nc03_emit(!($l" + o + "$r) && true);\n"
 		default:
 			return nil
 		}
-		res = append(res, runStmt(src))
+		ob := runStmt(src)
+		if (shape == "not" || shape == "notvl" || shape == "notand") && ob.Out == "val" && ob.V != nil && ob.V.K == "bool" {
+			inv := *ob.V
+			inv.B = !inv.B
+			ob.V = &inv
+		}
+		res = append(res, ob)
 	}
 	return res
 }
